@@ -57,7 +57,8 @@ ASSUMPTIONS = ["integer (INT) columns only; one or two tables per query; the mod
 REQUIRED_TAGS = ["range-pruned", "range-contig", "range-noncontig", "range-all-eq", "range-null-cut", "range-int32-max", "range-visits", "range-2col",
                  "q-merge", "q-lookup", "q-left", "q-asof", "q-count", "q-ita", "q-null-join-keys", "q-dup-both-sides", "q-ordered", "q-via-index", "q-keyless", "q-merge-ordered", "q-group-by", "q-distinct", "q-limit", "q-projection", "q-in-subquery",
                  "q-not-in-subquery", "q-asof-tag", "q-asof-branch", "q-asof-head", "q-asof-head-n", "range-3col", "range-mixed-widths",
-                 "range-prefix-of-composite", "range-int64-or-int16-max"]
+                 "range-prefix-of-composite", "range-int64-or-int16-max", "range-earlier-noneq-later-abovenull-with-nulls",
+                 "q-earlier-noneq-later-abovenull-with-nulls", "multi-range-empty-middle", "multi-range-empty-middle-count", "q-join-static-ranges"]
 
 VALS = [-1, 0, 1, 2, 3]
 EXT = [2147483647, -2147483648, 2147483646]
@@ -66,14 +67,15 @@ T_COLS = ["id", "a", "b", "c"]
 U_COLS = ["x", "y", "z"]
 K_COLS = ["a", "b"]
 W_COLS = ["p", "q", "s", "v"]          # int, bigint, smallint, int; primary key (p, q, s); index iv (v, q)
-TABLES = {"t": (0, T_COLS), "u": (1, U_COLS), "k": (2, K_COLS), "w": (3, W_COLS)}
+V_COLS = ["id", "a", "b"]               # only the composite index vab (a, b): the planner has to scan through it
+TABLES = {"t": (0, T_COLS), "u": (1, U_COLS), "k": (2, K_COLS), "w": (3, W_COLS), "v": (4, V_COLS)}
 I64 = [9223372036854775807, -9223372036854775808, 9223372036854775806]
 I16 = [32767, -32768, 32766]
 W_EXT = {0: EXT, 1: I64, 2: I16, 3: EXT}
 # index -> (table, key column positions in the table row: indexed columns then pk, number of indexed columns)
 INDEXES = {("t", "PRIMARY"): ([0], 1), ("t", "ia"): ([1, 0], 1), ("t", "iab"): ([1, 2, 0], 2),
            ("u", "PRIMARY"): ([0, 1], 2), ("u", "iz"): ([2, 0, 1], 1),
-           ("w", "PRIMARY"): ([0, 1, 2], 3), ("w", "iv"): ([3, 1, 0, 2], 2)}
+           ("w", "PRIMARY"): ([0, 1, 2], 3), ("w", "iv"): ([3, 1, 0, 2], 2), ("v", "vab"): ([1, 2, 0], 2)}
 
 
 def val(rng, null_p=0.2, ext_p=0.04, vals=VALS):
@@ -107,7 +109,9 @@ def gen_tables(rng, join):
     while len(wk) < (0 if join else rng.choice([0, 3, 8, 14])):
         wk.add((rng.choice([0, 1, 2]), rng.choice([0, 1, 2] + (I64 if rng.random() < 0.3 else [])), rng.choice([0, 1] + (I16 if rng.random() < 0.3 else []))))
     w = [[p_, q_, s_, val(rng, vals=[0, 1, 2])] for p_, q_, s_ in sorted(wk)]
-    return {"t": t, "u": u, "k": k, "w": w}
+    nv = 0 if join else rng.choice([0, 4, 9, 15])
+    v = [[i, val(rng, 0.1, 0.0), val(rng, 0.35, 0.0)] for i in sorted(rng.sample(range(1, 40), nv))]
+    return {"t": t, "u": u, "k": k, "w": w, "v": v}
 
 
 def ins_sql(name, rows):
@@ -119,8 +123,9 @@ def setup_sql(tb):
     s = ["create table t (id int primary key, a int, b int, c int, key ia (a), key iab (a, b))",
          "create table u (x int, y int, z int, primary key (x, y), key iz (z))",
          "create table k (a int, b int, key ka (a))",
-         "create table w (p int, q bigint, s smallint, v int, primary key (p, q, s), key iv (v, q))"]
-    for n in ("t", "u", "k", "w"):
+         "create table w (p int, q bigint, s smallint, v int, primary key (p, q, s), key iv (v, q))",
+         "create table v (id int primary key, a int, b int, key vab (a, b))"]
+    for n in ("t", "u", "k", "w", "v"):
         s += ins_sql(n, tb.get(n, []))
     return s
 
@@ -241,6 +246,12 @@ def is_atom(p):
 def index_for(tbl, p):
     """index the model evaluates p through: (key positions, nullable flags) or None"""
     first = {"t": {0: ([0], [False]), 1: None}, "u": {0: ([0, 1], [False, False]), 2: ([2, 0, 1], [True, True, True])}}
+    if tbl == "v":
+        if is_atom(p):
+            return {0: ([0], [False]), 1: ([1, 2, 0], [True, True, True])}.get(p[1])
+        if p[0] == "and" and is_atom(p[1]) and is_atom(p[2]) and (p[1][1], p[2][1]) == (1, 2):
+            return ([1, 2, 0], [True, True, True])
+        return None
     if tbl not in ("t", "u"):
         return None
     if is_atom(p):
@@ -318,6 +329,35 @@ def gen_range(rng, tb):
     return {"t": tname, "ix": ix, "cuts": cuts}
 
 
+def gen_range_noneq_abovenull(rng, tb):
+    """index (a,b): a range (not an equality) on a, an AboveNull lower cut on the nullable b"""
+    tn = rng.choice(["t", "v"])
+    avals = [r[1] for r in tb[tn] if r[1] is not None and r[2] is None] or [r[1] for r in tb[tn] if r[1] is not None] or [1]
+    k = rng.choice([x for x in avals if abs(x) < 1000] or [1])
+    c0 = rng.choice([[["a", k - 1], ["aa"]], [["b", k - 1], ["a", k + 1]], [["an"], ["a", k]], [["b", k], ["aa"]], [["an"], ["aa"]]])
+    kb = rng.choice(VALS + [4])
+    c1 = rng.choice([[["an"], ["b", kb]], [["an"], ["a", kb]], [["an"], ["aa"]], [["an"], ["b", kb]]])
+    return {"t": tn, "ix": "iab" if tn == "t" else "vab", "cuts": [c0, c1]}
+
+
+def gen_sel_noneq_abovenull(rng, ctx):
+    """select ... where <range on a> and <open-below restriction on b> through index (a,b)"""
+    tabs = ctx["cur"]
+    avals = [r[1] for r in tabs["v"] if r[1] is not None and r[2] is None] or [r[1] for r in tabs["v"] if r[1] is not None] or [1]
+    k = rng.choice([x for x in avals if abs(x) < 1000] or [1])
+    pa = rng.choice([["cmp", 1, ">", k - 1], ["cmp", 1, ">=", k], ["between", 1, k - 1, k + 1], ["cmp", 1, "<=", k], ["cmp", 1, "<", k + 1]])
+    kb = rng.choice(VALS + [4])
+    pb = rng.choice([["cmp", 2, "<", kb], ["cmp", 2, "<=", kb], ["cmp", 2, "<>", kb], ["notnull", 2]])
+    p = ["and", pa, pb]
+    ordered = rng.random() < 0.5
+    proj = rng.choice([None, [0], [0, 1, 2]])
+    w = pred_sql(p, V_COLS)
+    sel = "*" if proj is None else ", ".join(V_COLS[c] for c in proj)
+    q = "select %s from v where %s%s" % (sel, w, " order by id" if ordered else "")
+    return {"kind": "sel", "tbl": "v", "p": p, "snap": False, "ref": "", "ord": ordered, "proj": proj, "distinct": False, "limit": None,
+            "q": q, "rq": q, "rdb": "cur"}
+
+
 # ---- queries --------------------------------------------------------------------
 def asof(q, snap):
     """snap: falsy = working set; True = 'HEAD'; otherwise the revision text (tag, branch, HEAD~1)"""
@@ -333,7 +373,7 @@ def pick_ref(rng, ctx, p_):
 
 
 def gen_sel(rng, ctx):
-    tname = rng.choice(["t", "t", "t", "u", "u", "k"])
+    tname = rng.choice(["t", "t", "t", "u", "u", "k", "v"])
     _, cols = TABLES[tname]
     p = gen_pred(rng, len(cols))
     x = rng.random()
@@ -355,12 +395,13 @@ def gen_sel(rng, ctx):
     proj, distinct, limit = None, False, None
     y = rng.random()
     if y < 0.2:
-        proj = {"t": rng.choice([[1, 0], [1], [1, 2], [2, 1, 0], [3]]), "u": rng.choice([[2], [0], [2, 0, 1], [1, 2]]), "k": rng.choice([[0], [1, 0]])}[tname]
+        proj = {"t": rng.choice([[1, 0], [1], [1, 2], [2, 1, 0], [3]]), "u": rng.choice([[2], [0], [2, 0, 1], [1, 2]]), "k": rng.choice([[0], [1, 0]]),
+                "v": rng.choice([[1, 2], [0], [2, 1, 0]])}[tname]
         distinct = rng.random() < 0.6
         ordered = False
     elif y < 0.35 and ordered:
         limit = rng.choice([0, 1, 2, 5])
-    order = {"t": " order by id", "u": " order by x, y"}.get(tname, "") if ordered else ""
+    order = {"t": " order by id", "u": " order by x, y", "v": " order by id"}.get(tname, "") if ordered else ""
     w = pred_sql(p, cols, sub_asof=asof(None, ref))
     w0 = pred_sql(p, cols)
     sel = ("distinct " if distinct else "") + ("*" if proj is None else ", ".join(cols[c] for c in proj))
@@ -392,6 +433,65 @@ def gen_count(rng, ctx):
     return {"kind": "count", "tbl": tname, "col": col, "snap": bool(ref), "ref": ref, "ord": False, "q": q, "rq": rq, "rdb": "snap" if ref else "cur"}
 
 
+def multi_in(rng, tabs, tname, col):
+    """IN list / OR of equalities over an indexed column whose sorted values have an ABSENT value strictly between
+    present ones (an empty range in the middle of a multi-range lookup)"""
+    present = sorted({r[col] for r in tabs[tname] if r[col] is not None and abs(r[col]) < 1000})
+    pool = list(range(-2, 8))
+    absent = [v for v in pool if v not in present]
+    vals = set()
+    if len(present) >= 2 and absent:
+        lo, hi = present[0], present[-1]
+        mids = [v for v in absent if lo < v < hi] or absent
+        vals = {lo, hi, rng.choice(mids)}
+        if rng.random() < 0.5:
+            vals.add(rng.choice(present))
+        if rng.random() < 0.3:
+            vals.add(rng.choice(absent))
+    else:
+        vals = set(rng.sample(pool, 3))
+    vals = sorted(vals)
+    if rng.random() < 0.7:
+        return ["in", col, vals]
+    p = ["cmp", col, "=", vals[0]]
+    for v in vals[1:]:
+        p = ["or", p, ["cmp", col, "=", v]]
+    return p
+
+
+def in_values(p):
+    """(column, sorted values) when p is an IN list or an OR of equalities on one column, else None"""
+    if p[0] == "in":
+        return p[1], sorted(set(p[2]))
+    if p[0] == "cmp" and p[2] == "=":
+        return p[1], [p[3]]
+    if p[0] == "or":
+        a, b = in_values(p[1]), in_values(p[2])
+        if a and b and a[0] == b[0]:
+            return a[0], sorted(set(a[1] + b[1]))
+    return None
+
+
+def empty_middle(p, rows):
+    iv = in_values(p) if p else None
+    if not iv or len(iv[1]) < 3:
+        return False
+    col, vals = iv
+    have = {r[col] for r in rows}
+    return any(vals[i] not in have and any(v in have for v in vals[i + 1:]) and any(v in have for v in vals[:i]) for i in range(1, len(vals) - 1))
+
+
+def gen_countp(rng, ctx):
+    tname, col = rng.choice([("t", 1), ("t", 0), ("u", 0), ("u", 2)])
+    _, cols = TABLES[tname]
+    ref = pick_ref(rng, ctx, 0.15)
+    p = multi_in(rng, ctx["tb"] if ref else ctx["cur"], tname, col)
+    w = pred_sql(p, cols)
+    q = "select count(*) from %s%s where %s" % (tname, asof(None, ref), w)
+    rq = "select count(*) from %s where %s" % (tname, w)
+    return {"kind": "countp", "tbl": tname, "p": p, "snap": bool(ref), "ref": ref, "ord": False, "q": q, "rq": rq, "rdb": "snap" if ref else "cur"}
+
+
 def gen_join(rng, ctx):
     lt, rt = rng.choice([("t", "u"), ("t", "u"), ("u", "t"), ("t", "t")])
     lc = rng.choice({"t": [1, 1, 2, 0], "u": [0, 2, 1]}[lt])
@@ -402,10 +502,20 @@ def gen_join(rng, ctx):
     snap = pick_ref(rng, ctx, 0.2)
     lcols, rcols = TABLES[lt][1], TABLES[rt][1]
     sel = ", ".join(["l." + c for c in lcols] + ["r." + c for c in rcols])
-    q = "select %s%s from %s%s l %sjoin %s%s r on l.%s = r.%s" % (hint, sel, lt, asof(None, snap), "left " if left else "", rt, asof(None, snap), lcols[lc], rcols[rc])
-    rq = "select %s%s from %s l %sjoin %s r on l.%s = r.%s" % (hint, sel, lt, "left " if left else "", rt, lcols[lc], rcols[rc])
+    # static multi-range restrictions on the join's inputs (IN list / ORs on an indexed column)
+    tabs = ctx["tb"] if snap else ctx["cur"]
+    lp = rp = None
+    icol = {"t": [1, 0], "u": [0, 2]}
+    if "tb" in ctx and rng.random() < 0.45:
+        lp = multi_in(rng, tabs, lt, rng.choice(icol[lt]))
+    if "tb" in ctx and not left and rng.random() < 0.3:
+        rp = multi_in(rng, tabs, rt, rng.choice(icol[rt]))
+    wh = " and ".join(x for x in [pred_sql(lp, lcols, "l.") if lp else "", pred_sql(rp, rcols, "r.") if rp else ""] if x)
+    wh = (" where " + wh) if wh else ""
+    q = "select %s%s from %s%s l %sjoin %s%s r on l.%s = r.%s%s" % (hint, sel, lt, asof(None, snap), "left " if left else "", rt, asof(None, snap), lcols[lc], rcols[rc], wh)
+    rq = "select %s%s from %s l %sjoin %s r on l.%s = r.%s%s" % (hint, sel, lt, "left " if left else "", rt, lcols[lc], rcols[rc], wh)
     return {"kind": "join", "lt": lt, "rt": rt, "lc": lc, "rc": rc, "left": left, "snap": bool(snap), "ref": snap, "ord": False, "q": q, "rq": rq,
-            "rdb": "snap" if snap else "cur"}
+            "rdb": "snap" if snap else "cur", "lp": lp, "rp": rp}
 
 
 def build(tb, commit, later_sql, cur, ranges, qs, commit2=False):
@@ -418,13 +528,13 @@ def gen_one(rng, join):
     commit = rng.random() < 0.5
     commit2 = commit and rng.random() < 0.5
     later_sql, cur = gen_later(rng, tb) if commit else ([], copy.deepcopy(tb))
-    ctx = {"commit": commit, "refs": ["v1", "b1", "HEAD~1"] if commit2 else ["v1", "b1", "HEAD"]}
+    ctx = {"commit": commit, "refs": ["v1", "b1", "HEAD~1"] if commit2 else ["v1", "b1", "HEAD"], "tb": tb, "cur": cur}
     if join:
         ranges = []
-        qs = [gen_join(rng, ctx) for _ in range(6)] + [gen_count(rng, ctx)]
+        qs = [gen_join(rng, ctx) for _ in range(6)] + [gen_count(rng, ctx), gen_countp(rng, ctx)]
     else:
-        ranges = [gen_range(rng, cur) for _ in range(6)]
-        qs = [gen_sel(rng, ctx) for _ in range(7)] + [gen_count(rng, ctx), gen_group(rng, ctx)]
+        ranges = [gen_range(rng, cur) for _ in range(5)] + [gen_range_noneq_abovenull(rng, cur)]
+        qs = [gen_sel(rng, ctx) for _ in range(6)] + [gen_sel_noneq_abovenull(rng, ctx), gen_count(rng, ctx), gen_countp(rng, ctx), gen_group(rng, ctx)]
     return build(tb, commit, later_sql, cur, ranges, qs, commit2)
 
 
@@ -480,7 +590,40 @@ def fixed_cases():
     nt = {"t": [[1, None, 0, 0], [2, 0, 0, 0], [3, 5, 0, 0]],
           "u": [[1, 1, None], [1, 2, None], [1, 3, 0], [2, 1, 7], [3, 1, 7], [4, 1, 7], [5, 1, 7], [6, 1, 7]], "k": []}
     nq = [q_ for q_ in wq if q_["kind"] == "sel"]
-    return [build(tb, True, later, cur, ranges, qs), build(wt, False, [], copy.deepcopy(wt), [], wq), build(nt, False, [], copy.deepcopy(nt), [], nq)]
+    # multi-range lookups with an empty range in the middle (IN list with absent values)
+    mt = {"t": [[1, 1, 0, 0], [2, 7, None, 0], [3, 7, 1, 0], [4, 9, 2, 0], [5, 12, 2, 0], [6, None, 2, 0]],
+          "u": [[1, 0, 1], [7, 0, 7], [7, 1, None], [9, 0, 9], [12, 0, 1]], "k": [], "w": [],
+          "v": [[1, 1, 1], [2, 2, None], [3, 2, 3], [4, 3, None], [5, 3, 7], [6, None, 2]]}
+    mp = ["in", 0, [1, 4, 7, 9]]
+
+    def cp(tname, p_):
+        w_ = pred_sql(p_, TABLES[tname][1])
+        q_ = "select count(*) from %s where %s" % (tname, w_)
+        return {"kind": "countp", "tbl": tname, "p": p_, "snap": False, "ref": "", "ord": False, "q": q_, "rq": q_, "rdb": "cur"}
+
+    def jp(lt, rt, lc, rc, hint, left, lp, rp=None):
+        q_ = j(lt, rt, lc, rc, hint, left)
+        wh = " and ".join(x for x in [pred_sql(lp, TABLES[lt][1], "l.") if lp else "", pred_sql(rp, TABLES[rt][1], "r.") if rp else ""] if x)
+        q_["q"] += " where " + wh
+        q_["rq"] += " where " + wh
+        q_["lp"], q_["rp"], q_["ref"] = lp, rp, ""
+        return q_
+    ma = ["in", 1, [1, 4, 7, 9]]
+    mq = [cp("u", mp), cp("t", ma), cp("t", ["or", ["or", ["cmp", 1, "=", 1], ["cmp", 1, "=", 5]], ["cmp", 1, "=", 12]]),
+          jp("u", "t", 0, 1, L, False, mp), jp("u", "t", 0, 1, L, True, mp), jp("t", "u", 1, 0, M, False, ma), jp("t", "u", 1, 0, M, False, ma, mp),
+          jp("u", "t", 0, 1, M, True, mp)]
+    return [build(tb, True, later, cur, ranges, qs), build(wt, False, [], copy.deepcopy(wt), [], wq), build(nt, False, [], copy.deepcopy(nt), [], nq),
+            build(mt, False, [], copy.deepcopy(mt), [gen_fixed_c261()], mq + [gen_fixed_c261_sql()])]
+
+
+def gen_fixed_c261():
+    return {"t": "v", "ix": "vab", "cuts": [[["a", 1], ["aa"]], [["an"], ["b", 5]]]}
+
+
+def gen_fixed_c261_sql():
+    p_ = ["and", ["cmp", 1, ">", 1], ["cmp", 2, "<", 5]]
+    q_ = "select id from v where a > 1 and b < 5 order by id"
+    return {"kind": "sel", "tbl": "v", "p": p_, "snap": False, "ref": "", "ord": True, "proj": [0], "distinct": False, "limit": None, "q": q_, "rq": q_, "rdb": "cur"}
 
 
 def gen_cases(rng, tier):
@@ -525,7 +668,7 @@ def cq_bools(l):
 
 
 def cq_tables(tb):
-    return cq_list(cq_rows(tb.get(n, [])) for n in ("t", "u", "k", "w"))
+    return cq_list(cq_rows(tb.get(n, [])) for n in ("t", "u", "k", "w", "v"))
 
 
 def cq_bound(b):
@@ -550,13 +693,18 @@ def cq_query(case, q, qo):
             TABLES[q["tbl"]][0], snap, cq_pred(q["p"], tabs), cq_bool(q["ord"]), ixs,
             "None" if proj is None else "(Some %s)" % cq_nats(proj), cq_bool(q.get("distinct", False)),
             "None" if lim is None else "(Some %d%%nat)" % lim)
+    if q["kind"] == "countp":
+        return "(QCountP %d%%nat %s %s)" % (TABLES[q["tbl"]][0], snap, cq_pred(q["p"], tabs))
     if q["kind"] == "group":
         return "(QGroup %d%%nat %s %d%%nat)" % (TABLES[q["tbl"]][0], snap, q["col"])
     if q["kind"] == "count":
         return "(QCount %d%%nat %s %s %s)" % (TABLES[q["tbl"]][0], snap, cq_bool(q["tbl"] == "k"), "None" if q["col"] is None else "(Some %d%%nat)" % q["col"])
     plan = PLAN.get((qo or {}).get("plan"), 2)
-    return "(QJoin %d %s %s %d%%nat %d%%nat %d%%nat %d%%nat %d%%nat %s)" % (
-        plan, cq_bool(q["left"]), snap, TABLES[q["lt"]][0], TABLES[q["rt"]][0], q["lc"], q["rc"], len(TABLES[q["rt"]][1]), cq_ord(q, qo))
+    def optp(x):
+        return "None" if not x else "(Some %s)" % cq_pred(x, tabs)
+    return "(QJoin %d %s %s %d%%nat %d%%nat %d%%nat %d%%nat %d%%nat %s %s %s)" % (
+        plan, cq_bool(q["left"]), snap, TABLES[q["lt"]][0], TABLES[q["rt"]][0], q["lc"], q["rc"], len(TABLES[q["rt"]][1]), cq_ord(q, qo),
+        optp(q.get("lp")), optp(q.get("rp")))
 
 
 PKS = {"t": [0], "u": [0, 1]}
@@ -657,6 +805,11 @@ def classify(case, out):
             t.add("range-2col")
         if len(rc["cuts"]) == 3:
             t.add("range-3col")
+        if (rc["t"], rc["ix"]) in (("t", "iab"), ("v", "vab")) and len(rc["cuts"]) == 2:
+            c0, c1 = rc["cuts"]
+            eq0 = c0[0][0] == "b" and c0[1][0] == "a" and c0[0][1] == c0[1][1]
+            if not eq0 and c1[0][0] == "an" and any(k_[1] is None and py_sat([c0], k_[:1]) for k_ in ro["all"]):
+                t.add("range-earlier-noneq-later-abovenull-with-nulls")
         if rc["t"] == "w":
             t.add("range-mixed-widths")
             if len(rc["cuts"]) < INDEXES[(rc["t"], rc["ix"])][1]:
@@ -681,6 +834,25 @@ def classify(case, out):
             t.add("q-count")
         if q["kind"] == "group":
             t.add("q-group-by")
+        tabs_ = case["tables"] if q["snap"] else case["cur"]
+        if q["kind"] == "countp":
+            t.add("q-count-where")
+            if empty_middle(q["p"], tabs_[q["tbl"]]):
+                t.add("multi-range-empty-middle")
+                t.add("multi-range-empty-middle-count")
+        if q["kind"] == "join":
+            for side, key in (("lt", "lp"), ("rt", "rp")):
+                if q.get(key):
+                    t.add("q-join-static-ranges")
+                    if empty_middle(q[key], tabs_[q[side]]):
+                        t.add("multi-range-empty-middle")
+                        t.add("multi-range-empty-middle-" + qo["plan"])
+        if q["kind"] == "sel" and q["tbl"] == "v" and q["p"][0] == "and" and is_atom(q["p"][1]) and is_atom(q["p"][2]):
+            pa, pb = q["p"][1], q["p"][2]
+            noneq = pa[1] == 1 and (pa[0] == "between" or (pa[0] == "cmp" and pa[2] in ("<", "<=", ">", ">=")))
+            openb = pb[1] == 2 and (pb[0] == "notnull" or (pb[0] == "cmp" and pb[2] in ("<", "<=", "<>")))
+            if noneq and openb and any(r[2] is None and py_eval(pa, r) is True for r in tabs_["v"]) and "v.a,v.b" in (qo.get("pindex") or []):
+                t.add("q-earlier-noneq-later-abovenull-with-nulls")
         if q["kind"] == "sel":
             if q.get("distinct"):
                 t.add("q-distinct")
@@ -736,7 +908,7 @@ def shrink_candidates(case):
         for i in range(len(case["ranges"])):
             yield rebuild(case, ranges=case["ranges"][:i] + case["ranges"][i + 1:])
     if not case["later"]:
-        for n in ("t", "u", "k", "w"):
+        for n in ("t", "u", "k", "w", "v"):
             for i in range(len(case["tables"].get(n, []))):
                 tb = copy.deepcopy(case["tables"])
                 del tb[n][i]
@@ -807,13 +979,17 @@ def py_expected(case, q):
             if r[q["col"]] not in keys:
                 keys.append(r[q["col"]])
         return [[k_, sum(1 for r in tabs[q["tbl"]] if r[q["col"]] == k_)] for k_ in keys]
+    if q["kind"] == "countp":
+        return [[sum(1 for r in tabs[q["tbl"]] if py_eval(q["p"], r, tabs) is True)]]
     if q["kind"] == "count":
         rows = tabs[q["tbl"]]
         return [[len(rows) if q["col"] is None else sum(1 for r in rows if r[q["col"]] is not None)]]
     out = []
     nr = len(TABLES[q["rt"]][1])
-    for l in tabs[q["lt"]]:
-        ms = [r for r in tabs[q["rt"]] if l[q["lc"]] is not None and l[q["lc"]] == r[q["rc"]]]
+    lrows = [r for r in tabs[q["lt"]] if not q.get("lp") or py_eval(q["lp"], r, tabs) is True]
+    rrows = [r for r in tabs[q["rt"]] if not q.get("rp") or py_eval(q["rp"], r, tabs) is True]
+    for l in lrows:
+        ms = [r for r in rrows if l[q["lc"]] is not None and l[q["lc"]] == r[q["rc"]]]
         if ms:
             out += [list(l) + list(r) for r in ms]
         elif q["left"]:
@@ -858,7 +1034,7 @@ def category(case, q, qo):
         return KEY_NOTIN
     if q["kind"] == "join" and q["left"] and qo["plan"] == "merge" and not qo["err"]:
         tabs = case["tables"] if q["snap"] else case["cur"]
-        if sum(1 for r in tabs[q["lt"]] if r[q["lc"]] is None) >= 2:
+        if sum(1 for r in tabs[q["lt"]] if r[q["lc"]] is None and (not q.get("lp") or py_eval(q["lp"], r, tabs) is True)) >= 2:
             return KEY_MERGE
     return None
 
